@@ -150,3 +150,302 @@ def u_cores_1_value(U):
         U.canary('canary-context-of-the-induction-step', step_ctx + [concl], False, axioms=AXV)
         U.canary('canary-context-of-the-last-step', fin_ctx + [concl_l], False, axioms=AXV)
         U.post('fitted-tables-untouched', p, z3.BoolVal(p.heap[f1ref.oid].arr is F1 and p.heap[selfrec.oid].fields['f0'] is f0))
+
+
+# ----------------------------------------------------------------------------------------------
+# ANOVA.build_0 / build_1: the fitted first-order model.
+#
+# Data: I_trn is the (N x d) integer matrix with columns ICOL[k] (ICOL[k][s] = I_trn[s, k]), y_trn the real vector y of length N.
+#   build_0:  self.f0 = rmean(y, N), the sample mean (defining equation  f0 * N = y_0 + .. + y_{N-1}  proved as a separate
+#             quantifier-free obligation from the definition of rmean); needs N >= 1.
+#   build_1:  self.f1 is a list of d dicts; the dict of mode k has exactly the observed values of that mode as keys - every point of
+#             self.domain[k] is a key, and every key x occurs in column k (ccnt(ICOL[k], x, N) >= 1) - and
+#                   f1[k][x] = cmean(y, ICOL[k], x, N) - f0      (conditional sample mean minus the constant term).
+#             Precondition (class invariant established by ANOVA.build through np.unique, see unit anova_more.ANOVA.build.domain):
+#             every point of self.domain[k] occurs in column k.  f0 / domain are not modified.
+# cmean / rmean are defined through ccnt / csum / rsum (recursive over the sample index) in ttvc/mx_anova.py.
+# NOT covered: build_2 (pair tables): bounded suite.
+
+def _data(st, N, d):
+    ICOL, y = z3.Const('Icol', z3.ArraySort(z3.IntSort(), IA)), z3.Const('y', RA)
+    return X.IMat2((N, d), ICOL), ICOL, V.RVec(N, y), y
+
+
+@unit('anova_more.ANOVA.build_0', props=('C13',))
+def u_build_0(U):
+    fn = U.func('anova', 'ANOVA.build_0')
+    st = U.state()
+    N, d = z3.Ints('N d')
+    I_trn, ICOL, y_trn, y = _data(st, N, d)
+    selfrec = st.alloc(VRec({}))
+    ex = U.executor(fn, callees={'np.mean': X.np_mean, 'np.sum': X.np_sum})
+    ex.anova = True
+    st.vars.update(self=selfrec, I_trn=I_trn, y_trn=y_trn)
+    res = U.run(ex, st, pre=[N >= 1, d >= 1])
+    U.cover('precondition-satisfiable', U.pre)
+    for p, o in res:
+        if o.kind != 'return':
+            U.post('no-exception', p, False)
+            continue
+        f = p.deref(selfrec).fields
+        ok = set(f) == {'f0'} and M.is_num(f.get('f0'))
+        U.post('sets-exactly-the-attribute-f0-to-a-number', p, z3.BoolVal(ok))
+        if ok:
+            # the hint is the instance of the defining axiom of rmean (group 'cmean') for this data
+            U.post('f0-is-the-sample-mean: f0-times-the-number-of-samples-is-the-sum-of-the-values', p,
+                   M.to_real(f['f0']) * z3.ToReal(N) == X.rsum(y, N), qf=True, extra=[z3.Implies(N >= 1, X.rmean(y, N) * z3.ToReal(N) == X.rsum(y, N))])
+            U.canary('canary-f0-is-zero', p, M.to_real(f['f0']) == 0)
+        U.post('returns-None', p, z3.BoolVal(o.value is NONE))
+
+
+def _domain_seq(st, DM, d, shapes):
+    return st.alloc(VSeq(DM, d, lambda t: VArr((shapes[t.arg(1)],), t, 'ivec', 'i'), tag='ivecs'))
+
+
+def table_ok(c, k, DM, shapes, ICOL, y, N, f0):
+    """the table with code c is the first-order table of mode k: (every domain point is a key, every key is an observed value
+    with the conditional mean minus f0 as its value)"""
+    jq, xq = z3.Ints('j!t x!t')
+    return (z3.Implies(z3.And(0 <= jq, jq < shapes[k]), X.TDOM(c)[DM[k][jq]]),
+            z3.Implies(X.TDOM(c)[xq], z3.And(X.ccnt(ICOL[k], xq, N) >= 1, X.TVAL(c)[xq] == X.cmean(y, ICOL[k], xq, N) - f0)), jq, xq)
+
+
+@unit('anova_more.ANOVA.build_1', props=('C13',))
+def u_build_1(U):
+    fn = U.func('anova', 'ANOVA.build_1')
+    st = U.state()
+    N, d = z3.Ints('N d')
+    f0 = z3.Real('f0')
+    I_trn, ICOL, y_trn, y = _data(st, N, d)
+    DM, shapes = z3.Const('domain', z3.ArraySort(z3.IntSort(), IA)), z3.Const('shapes', IA)
+    domref = _domain_seq(st, DM, d, shapes)
+    selfrec = st.alloc(VRec({'domain': domref, 'f0': f0}))
+    kq, jq, xq, tq = z3.Ints('k!q j!q x!q t!q')
+
+    def tables_ok(F, upto):
+        a, b, j_, x_ = table_ok(F[kq], kq, DM, shapes, ICOL, y, N, f0)
+        rng = z3.And(0 <= kq, kq < upto)
+        return [('every-observed-value-of-the-mode-is-a-key', z3.ForAll([kq, j_], z3.Implies(rng, a), patterns=[z3.MultiPattern(F[kq], DM[kq][j_])])),
+                ('every-key-is-an-observed-value-and-holds-the-conditional-mean-minus-f0',
+                 z3.ForAll([kq, x_], z3.Implies(rng, b), patterns=[X.TDOM(F[kq])[x_], X.TVAL(F[kq])[x_]]))]
+
+    def f1_of(s):
+        ref = s.deref(s.vars['self']).fields.get('f1')
+        o = s.deref(ref) if ref is not None else None
+        if not (isinstance(o, VSeq) and o.tag == 'tables'):
+            raise M.ContractMismatch('self.f1 is not the list of tables')
+        return o
+
+    def inv_outer(ex, s, j):
+        F = f1_of(s)
+        return [('one-table-per-processed-mode', F.n == j)] + tables_ok(F.arr, j)
+
+    def inv_inner(ex, s, j):
+        F, k = f1_of(s), Z(s.vars['k'])
+        cur = s.deref(s.vars['f1_curr'])
+        if not isinstance(cur, X.KMap):
+            raise M.ContractMismatch('f1_curr is not a dict')
+        return [('one-table-per-processed-mode', F.n == k), ('mode-in-range', z3.And(0 <= k, k < d))] + [(l + '(kept)', g) for l, g in tables_ok(F.arr, k)] + \
+            [('processed-points-are-keys', z3.ForAll([tq], z3.Implies(z3.And(0 <= tq, tq < j), cur.dom[DM[k][tq]]), patterns=[DM[k][tq]])),
+             ('every-key-is-an-observed-value-and-holds-the-conditional-mean-minus-f0(current)',
+              z3.ForAll([xq], z3.Implies(cur.dom[xq], z3.And(X.ccnt(ICOL[k], xq, N) >= 1, cur.val[xq] == X.cmean(y, ICOL[k], xq, N) - f0)),
+                        patterns=[cur.dom[xq], cur.val[xq]]))]
+
+    def hook(ex, h, pre_, j):
+        X.havoc_attr(ex, h, 'self', 'f1')
+
+    ex = U.executor(fn, loops={0: {'inv': inv_outer, 'havoc_hook': hook}, 1: {'inv': inv_inner}}, callees={'np.mean': X.np_mean, 'np.sum': X.np_sum},
+                    type_hints={'self.f1': lambda ex_, s_: X.table_seq(ex_, s_)})
+    ex.anova, ex.attr_havoc = True, {'self.f1'}
+    ex.mode = 'ematch'
+    st.vars.update(self=selfrec, I_trn=I_trn, y_trn=y_trn)
+    pre = [N >= 1, d >= 1,
+           z3.ForAll([kq], z3.Implies(z3.And(0 <= kq, kq < d), shapes[kq] >= 0), patterns=[shapes[kq]]),
+           z3.ForAll([kq, jq], z3.Implies(z3.And(0 <= kq, kq < d, 0 <= jq, jq < shapes[kq]), X.ccnt(ICOL[kq], DM[kq][jq], N) >= 1), patterns=[DM[kq][jq]])]
+    res = U.run(ex, st, pre=pre)
+    U.cover('precondition-satisfiable', U.pre)
+    kk, jj, xx = z3.Ints('kk jj xx')
+    for p, o in res:
+        if o.kind != 'return':
+            U.post('no-exception', p, False, mode='ematch')
+            continue
+        F = f1_of(p)
+        U.post('one-table-per-mode', p, F.n == d, mode='ematch')
+        a, b, j_, x_ = table_ok(F.arr[kk], kk, DM, shapes, ICOL, y, N, f0)
+        U.post('every-observed-value-of-the-mode-is-a-key', list(p.pc) + [0 <= kk, kk < d], z3.substitute(a, (j_, jj)), mode='ematch')
+        U.post('every-key-is-an-observed-value-and-holds-the-conditional-mean-minus-f0', list(p.pc) + [0 <= kk, kk < d], z3.substitute(b, (x_, xx)), mode='ematch')
+        f = p.deref(selfrec).fields
+        U.post('constant-term-and-domain-untouched', p, z3.BoolVal(f['f0'] is f0 and f['domain'] is domref and p.heap[domref.oid].arr is DM and set(f) == {'f0', 'domain', 'f1'}))
+        U.canary('canary-no-keys', list(p.pc) + [0 <= kk, kk < d, 0 <= jj, jj < shapes[kk]], z3.Not(X.TDOM(F.arr[kk])[DM[kk][jj]]))
+        U.canary('canary-values-are-zero', list(p.pc) + [0 <= kk, kk < d, X.TDOM(F.arr[kk])[xx]], X.TVAL(F.arr[kk])[xx] == 0)
+
+
+# ----------------------------------------------------------------------------------------------
+# ANOVA.calc_0 / calc_1 / calc / __call__: the value of the fitted model at a multi-index.
+#
+# The fitted first-order tables are the list self.f1 of d dicts: table k has the values F1[k] (Int -> Real) and the key set DOM1[k].
+#   calc_0()   = f0
+#   calc_1(x)  = asum(F1, x, len x) = sum_k F1[k][x_k]        for a multi-index x of length <= d whose entries are keys (KeyError
+#                otherwise: obligation `key-present`; longer x: IndexError, obligation `list-index-in-range`)
+#   calc(i)    = calc_0() [+ calc_1(i) if order >= 1] [+ calc_2(i) if order >= 2]      (call-site contracts of the three methods)
+#   __call__(I): 1-D I -> calc(I); 2-D I -> 1-D array with calc(row) per row, element by element; any other ndim -> ValueError.
+
+def _f1_tables(st, F1, DOM1, d):
+    return st.alloc(VSeq(F1, d, lambda t: X.KMap(t, DOM1[t.arg(1)], frozen=True), tag='tables'))
+
+
+def in_domain(DOM1, ix, n):
+    t = z3.Int('t!d')
+    return z3.ForAll([t], z3.Implies(z3.And(0 <= t, t < n), DOM1[t][ix[t]]), patterns=[ix[t]])
+
+
+@unit('anova_more.ANOVA.calc_0', props=('C13',))
+def u_calc_0(U):
+    fn = U.func('anova', 'ANOVA.calc_0')
+    st = U.state()
+    f0 = z3.Real('f0')
+    selfrec = st.alloc(VRec({'f0': f0}))
+    ex = U.executor(fn)
+    ex.anova = True
+    st.vars.update(self=selfrec)
+    for p, o in U.run(ex, st):
+        U.post('returns-the-constant-term', p, M.to_real(o.value) == f0 if o.kind == 'return' and M.is_num(o.value) else z3.BoolVal(False))
+        U.post('object-untouched', p, z3.BoolVal(p.deref(selfrec).fields == {'f0': f0}))
+
+
+@unit('anova_more.ANOVA.calc_1', props=('C13',))
+def u_calc_1(U):
+    fn = U.func('anova', 'ANOVA.calc_1')
+    st = U.state()
+    d, n = z3.Ints('d n')
+    F1, DOM1, ix = z3.Const('f1', RAA), z3.Const('dom1', z3.ArraySort(z3.IntSort(), X.BA)), z3.Const('ix', T.IDX)
+    f1ref = _f1_tables(st, F1, DOM1, d)
+    selfrec = st.alloc(VRec({'f1': f1ref}))
+
+    def inv(ex, s, j):
+        res = s.vars['res']
+        if not M.is_num(res):
+            raise M.ContractMismatch('res is not a number')
+        return [('accumulated-sum-of-the-per-mode-terms', M.to_real(res) == X.asum(F1, ix, j))]
+
+    AXS = T.axioms('asum')
+    ex = U.executor(fn, loops={0: {'inv': inv}}, axioms=AXS)
+    ex.anova = True
+    ex.mode = 'ematch'
+    st.vars.update(self=selfrec, x=VArr((n,), ix, 'ivec', 'i'))
+    res = U.run(ex, st, pre=[d >= 1, 0 <= n, n <= d, in_domain(DOM1, ix, n)])
+    U.cover('precondition-satisfiable', U.pre, axioms=AXS)
+    for p, o in res:
+        if o.kind != 'return' or not M.is_num(o.value):
+            U.post('returns-a-number', p, False, axioms=AXS, mode='ematch')
+            continue
+        U.post('sum-of-the-per-mode-terms-at-the-multi-index', p, M.to_real(o.value) == X.asum(F1, ix, n), axioms=AXS, mode='ematch')
+        U.post('tables-untouched', p, z3.BoolVal(p.heap[f1ref.oid].arr is F1 and p.deref(selfrec).fields == {'f1': f1ref}))
+        U.canary('canary-sum-is-zero', list(p.pc) + [n >= 1], M.to_real(o.value) == 0, axioms=AXS)
+
+
+def call_calc_1(F1, DOM1, d, log=None):
+    """call-site contract of calc_1 (proved by unit anova_more.ANOVA.calc_1)"""
+    def h(ex, st, args, kwargs, node):
+        x = st.deref(args[0]) if len(args) == 1 and not kwargs else None
+        if not (isinstance(x, VArr) and x.ndim == 1 and x.tag == 'ivec' and x.t is not None):
+            raise M.Unsupported('calc_1 of something else than one integer multi-index')
+        n = Z(x.shape[0])
+        ex.oblige(st, 'call-pre', 'calc_1: multi-index not longer than the number of modes', z3.And(0 <= n, n <= d), node)
+        ex.oblige(st, 'call-pre', 'calc_1: every index is an observed value of its mode', in_domain(DOM1, x.t, n), node)
+        if log is not None:
+            log.append(('calc_1', x))
+        return X.asum(F1, x.t, n)
+    return VFunc('ANOVA.calc_1', h)
+
+
+# ---- calc_2: the pair terms.  self.f2 is the list of the d(d-1)/2 pair tables in storage order; W[i1][i2] NAMES the table of the
+# pair of modes i1 < i2, i.e. the one stored at the position p with 2p = i1 (2d - 3 - i1) + 2 (i2 - 1) - the position that
+# pair_num_to_num returns (call-site contract = what unit anova.ANOVA.pair_num_to_num proves).
+#   calc_2(x) = p2out(W, x, n, n) = sum_{i1 < i2 < n} W[i1][i2][x_i1][x_i2]      for a multi-index of length 1 <= n <= d whose
+#   pairs of entries are keys of their tables (KeyError otherwise: obligation `key-present`).
+
+from contracts.anova import pair_number_twice
+
+BAA = z3.ArraySort(z3.IntSort(), X.BA)
+
+
+def call_pair_num(d, log=None):
+    def h(ex, st, args, kwargs, node):
+        if len(args) != 2 or kwargs:
+            raise M.Unsupported('pair_num_to_num calling pattern')
+        x1, x2 = [Z(ex.need_num(st, a, node)) for a in args]
+        ex.oblige(st, 'call-pre', 'pair_num_to_num: two different modes in range (AssertionError for equal modes)',
+                  z3.And(d >= 2, 0 <= x1, x1 < d, 0 <= x2, x2 < d, x1 != x2), node)
+        ctx = list(ex.axioms) + list(st.pc)
+        if M.quick_unsat(ctx + [x1 >= x2]):
+            lo, hi = x1, x2
+        elif M.quick_unsat(ctx + [x1 <= x2]):
+            lo, hi = x2, x1
+        else:
+            lo, hi = z3.If(x1 < x2, x1, x2), z3.If(x1 < x2, x2, x1)
+        v = ex.fresh_int('pairpos')
+        st.assume(2 * v == pair_number_twice(d, lo, hi), v >= 0, 2 * v < d * (d - 1))
+        if log is not None:
+            log.append((x1, x2, v))
+        return v
+    return VFunc('ANOVA.pair_num_to_num', h)
+
+
+def pair_tables(st, F2C, npairs):
+    return st.alloc(VSeq(F2C, npairs, lambda c: X.KMap2(X.T2VAL(c), X.T2DOM(c)), tag='tables2'))
+
+
+def w_names_the_tables(W, WD, F2C, d):
+    i1, i2, pos = z3.Ints('i1!w i2!w p!w')
+    return z3.ForAll([i1, i2, pos], z3.Implies(z3.And(0 <= i1, i1 < i2, i2 < d, 2 * pos == pair_number_twice(d, i1, i2)),
+                                               z3.And(W[i1][i2] == X.T2VAL(F2C[pos]), WD[i1][i2] == X.T2DOM(F2C[pos]))),
+                     patterns=[z3.MultiPattern(F2C[pos], W[i1][i2]), z3.MultiPattern(F2C[pos], WD[i1][i2])])
+
+
+def pairs_in_domain(WD, ix, n):
+    a, b = z3.Ints('a!d b!d')
+    return z3.ForAll([a, b], z3.Implies(z3.And(0 <= a, a < b, b < n), WD[a][b][ix[a]][ix[b]]), patterns=[z3.MultiPattern(ix[a], ix[b])])
+
+
+@unit('anova_more.ANOVA.calc_2', props=('C13',))
+def u_calc_2(U):
+    fn = U.func('anova', 'ANOVA.calc_2')
+    st = U.state()
+    d, n, npairs = z3.Ints('d n npairs')
+    F2C, ix = z3.Const('f2', IA), z3.Const('ix', T.IDX)
+    W, WD = z3.Const('W', X.RAAAA), z3.Const('WD', z3.ArraySort(z3.IntSort(), z3.ArraySort(z3.IntSort(), BAA)))
+    f2ref = pair_tables(st, F2C, npairs)
+    calls = []
+    selfrec = st.alloc(VRec({'f2': f2ref, 'd': d, 'pair_num_to_num': call_pair_num(d, calls)}))
+
+    def num(v):
+        if not M.is_num(v):
+            raise M.ContractMismatch('not a number')
+        return M.to_real(v)
+
+    def inv_outer(ex, s, j):
+        return [('accumulated-pair-terms-of-the-processed-first-modes', num(s.vars['res']) == X.p2out(W, ix, n, j))]
+
+    def inv_inner(ex, s, j):
+        i1, x1 = Z(s.vars['i1']), Z(s.vars['x1'])
+        return [('first-mode-in-range', z3.And(0 <= i1, i1 < n)), ('x1-is-the-index-of-the-first-mode', x1 == ix[i1]),
+                ('accumulated-pair-terms', num(s.vars['res']) == X.p2out(W, ix, n, i1) + X.p2in(W, ix, i1, i1 + 1 + j))]
+
+    AXP = T.axioms('psum2')
+    ex = U.executor(fn, loops={0: {'inv': inv_outer}, 1: {'inv': inv_inner}}, axioms=AXP)
+    ex.anova = True
+    ex.nl_exact = True
+    st.vars.update(self=selfrec, x=VArr((n,), ix, 'ivec', 'i'))
+    pre = [d >= 2, 1 <= n, n <= d, 2 * npairs == d * (d - 1), w_names_the_tables(W, WD, F2C, d), pairs_in_domain(WD, ix, n)]
+    res = U.run(ex, st, pre=pre)
+    U.assumed.append('ANOVA.pair_num_to_num (unit anova.ANOVA.pair_num_to_num)')
+    U.cover('precondition-satisfiable', U.pre, axioms=AXP)
+    for p, o in res:
+        if o.kind != 'return' or not M.is_num(o.value):
+            U.post('returns-a-number', p, False, axioms=AXP)
+            continue
+        U.post('sum-of-the-pair-terms-over-all-pairs-of-modes', p, M.to_real(o.value) == X.p2out(W, ix, n, n), axioms=AXP)
+        U.post('tables-untouched', p, z3.BoolVal(p.heap[f2ref.oid].arr is F2C and set(p.deref(selfrec).fields) == {'f2', 'd', 'pair_num_to_num'}))
+        U.canary('canary-sum-is-zero', list(p.pc) + [n >= 2], M.to_real(o.value) == 0, axioms=AXP)
+    U.post('positions-come-from-pair_num_to_num', U.pre, z3.BoolVal(len(calls) >= 1))
